@@ -684,3 +684,37 @@ Qed.
 Lemma d_witness_repeats :
   map d_peer (d_yield (d_iterate (d_policy_server d_witness 0 4) 2 8 d_init)) = [104; 103; 102; 101; 102; 101; 102; 101].
 Proof. vm_compute. reflexivity. Qed.
+
+(* ---------- Value() never indexes outside the buffer after a true Next ---------- *)
+Lemma m_next_true_in_range srv limit s s' q :
+  -1 <= m_cur s -> m_next srv limit s = (true, s', q) ->
+  0 <= m_cur s' < zlen (m_buf s') /\ -1 <= m_cur s'.
+Proof.
+  intros Hc H. unfold m_next in H.
+  assert (forall t t', -1 <= m_cur t -> m_bufnext t = Some t' -> 0 <= m_cur t' < zlen (m_buf t')) as Hb.
+  { intros t t' Ht E. unfold m_bufnext in E. destruct (Z.leb_spec (zlen (m_buf t) - 1) (m_cur t)); [discriminate|].
+    inversion E; subst; cbn. lia. }
+  destruct (m_bufnext s) as [s0|] eqn:E0.
+  - inversion H; subst. pose proof (Hb _ _ Hc E0). lia.
+  - set (s1 := m_apply limit (srv (m_off s) limit) s) in *.
+    assert (-1 <= m_cur s1) as H1.
+    { unfold s1, m_apply. destruct (m_last s); [exact Hc|]. destruct (sort_desc _); cbn; lia. }
+    destruct (m_bufnext s1) as [s2|] eqn:E1; inversion H; subst. pose proof (Hb _ _ H1 E1). lia.
+Qed.
+
+Lemma d_next_true_in_range srv limit s s' q :
+  -1 <= x_cur s -> d_next srv limit s = (true, s', q) ->
+  0 <= x_cur s' < zlen (x_buf s') /\ -1 <= x_cur s'.
+Proof.
+  intros Hc H. unfold d_next in H.
+  assert (forall t t', -1 <= x_cur t -> d_bufnext t = Some t' -> 0 <= x_cur t' < zlen (x_buf t')) as Hb.
+  { intros t t' Ht E. unfold d_bufnext in E. destruct (Z.leb_spec (zlen (x_buf t) - 1) (x_cur t)); [discriminate|].
+    inversion E; subst; cbn. lia. }
+  destruct (d_bufnext s) as [s0|] eqn:E0.
+  - inversion H; subst. pose proof (Hb _ _ Hc E0). lia.
+  - set (s1 := d_apply (srv (x_od s) (x_oi s) (x_op s) limit) s) in *.
+    assert (-1 <= x_cur s1) as H1.
+    { unfold s1, d_apply. destruct (x_last s); [exact Hc|].
+      destruct (negb _ && _); cbn; lia. }
+    destruct (d_bufnext s1) as [s2|] eqn:E1; inversion H; subst. pose proof (Hb _ _ H1 E1). lia.
+Qed.
